@@ -201,6 +201,7 @@ dLUMemInit(fact_t fact, void *work, int_t lwork, int m, int n, int_t annz,
     double   *ucol;
     int_t    *usub, *xusub;
     int_t    nzlmax, nzumax, nzlumax;
+    int_t    used0 = 0, top10 = 0; /* USER model: stack state before L\U arrays */
     
     iword     = sizeof(int);
     dword     = sizeof(double);
@@ -242,6 +243,12 @@ dLUMemInit(fact_t fact, void *work, int_t lwork, int m, int n, int_t annz,
 	    xlsub  = duser_malloc((n+1) * iword, HEAD, Glu);
 	    xlusup = duser_malloc((n+1) * iword, HEAD, Glu);
 	    xusub  = duser_malloc((n+1) * iword, HEAD, Glu);
+	    if ( !xsup || !supno || !xlsub || !xlusup || !xusub ) {
+		/* work[] cannot even hold the pointer arrays */
+		return (dmemory_usage(nzlmax, nzumax, nzlumax, n) + n);
+	    }
+	    used0 = Glu->stack.used;
+	    top10 = Glu->stack.top1;
 	}
 
 	lusup = (double *) dexpand( &nzlumax, LUSUP, 0, 0, Glu );
@@ -256,8 +263,10 @@ dLUMemInit(fact_t fact, void *work, int_t lwork, int m, int n, int_t annz,
 		SUPERLU_FREE(lsub); 
 		SUPERLU_FREE(usub);
 	    } else {
-		duser_free((nzlumax+nzumax)*dword+(nzlmax+nzumax)*iword,
-                            HEAD, Glu);
+		/* Release whatever part of the four arrays was obtained,
+		   including any alignment padding. */
+		Glu->stack.used = used0;
+		Glu->stack.top1 = top10;
 	    }
 	    nzlumax /= 2;
 	    nzumax /= 2;
